@@ -406,6 +406,7 @@ func runC16(c *Ctx) {
 	checkLocalfsDeleteOnlyKey(c, "delete.only-the-key")
 	checkGenericErrorDiscipline(c, "pkg/storage/localfs", "pkg/storage")
 	checkHasIsExistenceOnly(c, "has.existence-only")
+	checkKeysPrefixAlgorithm(c, "keysprefix.algorithm")
 }
 
 // shortCircuitProtects: in `err != nil || <uses info>` (or `err == nil && <uses info>`) the use of info is evaluated
